@@ -24,6 +24,11 @@ func init() {
 	gen.RegisterOp("c14", "rt", func(_ *gen.Ctx, raw json.RawMessage) any {
 		return c14RoundTrip(gen.Into[c14RTIn](raw))
 	})
+	areas["c14facts"] = runC14Facts
+	gen.RegisterOp("c14", "big", func(_ *gen.Ctx, raw json.RawMessage) any {
+		in := gen.Into[c14BigIn](raw)
+		return tracer.VerifBigSession(in.Path, in.Side, in.Client, in.Req.VerifBigSide, in.Resp.VerifBigSide)
+	})
 }
 
 // c14Side describes the headers and the scripted body of one direction.
@@ -498,6 +503,8 @@ func runC14(c *gen.Ctx) error {
 			e.Count("random")
 		}
 	}
+	// (f) bodies of 4 GiB and more (never written down: the same zeroed array again and again)
+	c14BigCases(c)
 	// (e) the middleware wiring: real TracingHandler (tracingResponseWriter) and TracingRoundTripper
 	nMid := 2500
 	if c.Thorough() {
